@@ -145,18 +145,20 @@ CheckAndMutate(st, op) ==       \* op.hasPred, op.pred, op.tm, op.fm, op.famOrde
   ELSE LET row == RowOf(st, op.t, op.k)
            evs == IF op.hasPred /\ row # NoRow
                   THEN Eval(op.pred, CellList(row, FamOrderFor(row, op.famOrder)), op.k)
-                  ELSE {[err |-> FALSE, cells |-> IF row = NoRow THEN <<>> ELSE <<1>>]}
+                  ELSE {[err |-> FALSE, cells |-> IF row = NoRow THEN <<>> ELSE <<1>>, amb |-> FALSE]}
            \* an invalid filter somewhere in the predicate that the evaluation does not reach (row absent,
            \* short-circuited chain, branch not taken) may or may not be rejected (DESIGN.md 5.4)
            lax == op.hasPred /\ HasInvalid(op.pred) /\ \A ev \in evs : ~ev.err
        IN (IF lax THEN {Out(st, ErrCode(InvalidArgCode))} ELSE {}) \cup
           UNION { IF ev.err THEN {Out(st, ErrCode(InvalidArgCode))}
-                  ELSE LET matched == ev.cells # <<>> IN
+                  ELSE UNION {
                        { IF o.ok THEN Out(WithRow(st, op.t, op.k, o.row), [ok |-> TRUE, code |-> 0, matched |-> matched])
                          ELSE Out(st, ErrAny)
                          : o \in { x \in Apply(row, FamSet(st, op.t), IF matched THEN op.tm ELSE op.fm, op.now) :
                                    \* an empty selected list: success, nothing changes
                                    (IF matched THEN op.tm ELSE op.fm) = <<>> => x.ok } }
+                       \* a predicate whose outcome the documented semantics do not determine (BtFilter, amb): either branch
+                       : matched \in (IF ev.amb THEN BOOLEAN ELSE {ev.cells # <<>>}) }
                   : ev \in evs }
 
 ReadModifyWrite(st, op) ==
@@ -174,15 +176,17 @@ LoggedOrder(fos, k) ==
 
 RECURSIVE Scan(_, _, _, _, _, _, _)
 Scan(st, op, keys, i, acc, famOrders, cnt) ==
-  IF i > Len(keys) \/ (op.limit > 0 /\ cnt >= op.limit) THEN {[err |-> FALSE, rows |-> acc]}
+  IF i > Len(keys) \/ (op.limit > 0 /\ cnt >= op.limit) THEN {[err |-> FALSE, rows |-> acc, amb |-> FALSE]}
   ELSE LET k   == keys[i]
            row == RowOf(st, op.t, k)
            fo  == FamOrderFor(row, LoggedOrder(famOrders, k))
            cl  == CellList(row, fo)
-       IN UNION { IF ev.err THEN {[err |-> TRUE, rows |-> acc]}
+       IN UNION { IF ev.err THEN {[err |-> TRUE, rows |-> acc, amb |-> FALSE]}
+                  \* the filter's outcome on this row is not determined (BtFilter, amb): nothing is required of the rows
+                  ELSE IF ev.amb THEN {[err |-> FALSE, rows |-> acc, amb |-> TRUE]}
                   ELSE IF ev.cells = <<>> THEN Scan(st, op, keys, i + 1, acc, famOrders, cnt)
                   ELSE Scan(st, op, keys, i + 1, Append(acc, [k |-> k, cells |-> ev.cells]), famOrders, cnt + 1)
-                  : ev \in (IF op.hasFilter THEN Eval(op.filter, cl, k) ELSE {[err |-> FALSE, cells |-> cl]}) }
+                  : ev \in (IF op.hasFilter THEN Eval(op.filter, cl, k) ELSE {[err |-> FALSE, cells |-> cl, amb |-> FALSE]}) }
 
 ReadRows(st, op) ==       \* op.rs, op.limit, op.hasFilter, op.filter, op.famOrders : Seq([k, fo])
   IF ~HasTbl(st, op.t) THEN NotFound(st)
@@ -191,7 +195,7 @@ ReadRows(st, op) ==       \* op.rs, op.limit, op.hasFilter, op.filter, op.famOrd
            res  == Scan(st, op, keys, 1, <<>>, op.famOrders, 0)
            lax  == op.hasFilter /\ HasInvalid(op.filter) /\ \A r \in res : ~r.err
        IN (IF lax THEN {Out(st, ErrCode(InvalidArgCode))} ELSE {}) \cup
-          { IF r.err THEN Out(st, ErrCode(InvalidArgCode)) ELSE Out(st, [ok |-> TRUE, code |-> 0, rows |-> r.rows])
+          { IF r.err THEN Out(st, ErrCode(InvalidArgCode)) ELSE Out(st, [ok |-> TRUE, code |-> 0, rows |-> r.rows, amb |-> r.amb])
             : r \in res }
 
 SampleRowKeys(st, op) ==
